@@ -52,8 +52,18 @@ class TreeLayout:
         the measurements of the tree.
 
         Returns a TreeMeasurement object that describes the bounds of the tree"""
+        self._reset(node)
         self.measure(node)
         return self.transform(node, 0, unit_x_multiplier, unit_y_multiplier)
+
+    def _reset(self, node: Optional[BinaryTreeNode]) -> None:
+        """Forget the scratch state (threads, levels, offsets) of an earlier layout."""
+        if node is None:
+            return
+        for name in ("thread", "level", "offset"):
+            node.__dict__.pop(name, None)
+        self._reset(node.left)
+        self._reset(node.right)
 
     def measure(
         self,
